@@ -340,14 +340,14 @@ def work(item: dict) -> dict:
             if access == "get_all_operations":
                 by_label = {r.ok().label: r.ok() for r in schema.get_all_operations()}
             for op in order:
-                if only and (list(cfg), op["root"], op["field"], access) != (only["cfg"], only["root"], only["field"], only["access"]):
-                    continue
                 n = item["n"] if op["field"] in ("f", "g") else max(3, item["n"] // 5)
                 try:
                     if access == "get_all_operations":
                         operation = by_label["%s.%s" % (op["rootName"], op["field"])]
                     else:
-                        operation = schema[op["rootName"]][op["field"]]
+                        operation = schema[op["rootName"]][op["field"]]    # looked up for every operation, in this order (also in a replay)
+                    if only and (list(cfg), op["root"], op["field"], access) != (only["cfg"], only["root"], only["field"], only["access"]):
+                        continue
                     strategy = operation.as_strategy(generation_config=gen)
                 except BaseException as exc:  # noqa: BLE001
                     record(list(cfg), op, access, [], "%s: %s" % (type(exc).__name__, str(exc)[:160]))
@@ -587,8 +587,8 @@ def run(ctx: Ctx) -> Outcome:
                 ld = ["json-data", "file-json"][s % 2]     # the other front doors of the same loaders, on a slice of the family
             if loader == "sdl" and s % 7 == 5:
                 ld = "path"
-            # thorough: all 8 generation configs through the SDL loader, the 4 quick ones through the JSON loaders
-            items.append({"s": s, "view": view, "loader": ld, "cfgs": cfgs if loader == "sdl" else CFGS_QUICK, "n": n, "seed": (ctx.seed * 1000003 + s * 17 + li) % (2 ** 31)})
+            # SDL loader: all generation configs of the tier; JSON loaders: 2 (quick) / 4 (thorough) of them
+            items.append({"s": s, "view": view, "loader": ld, "cfgs": cfgs if loader == "sdl" else (CFGS_QUICK[::3] if ctx.quick else CFGS_QUICK), "n": n, "seed": (ctx.seed * 1000003 + s * 17 + li) % (2 ** 31)})
     t1 = time.time()
     results = common.pmap(work, items, chunk=1)
     t_draw = time.time() - t1
@@ -652,10 +652,7 @@ def replay(ctx: Ctx, data: dict) -> Outcome:
         return out
     for seed in range(3):
         item = {"s": 0, "view": view, "loader": data["loader"], "cfgs": [tuple(data["cfg"])], "n": data.get("n", 60) * 5, "seed": seed,
-                "only": {"cfg": list(data["cfg"]), "root": data["root"], "field": data["field"],
-                         "access": data["access"] if data["access"] != "getitem-mutation-first" else "getitem-mutation-first"}}
-        if data["access"] != "getitem-query-first":
-            item["cfgs"] = [tuple(data["cfg"])]
+                "only": {"cfg": list(data["cfg"]), "root": data["root"], "field": data["field"], "access": data["access"]}}
         r = work(item)
         o2 = Outcome()
         evaluate(ctx, o2, [view], [r])
